@@ -17,6 +17,7 @@ import re
 from dataclasses import dataclass, field
 
 from . import boot  # noqa: F401  (sys.path)
+from .budget import StepBudgetExceeded, step_budget, steps_of_last_call
 from .core import Acc
 from .refmodel import msgparse, rules as rrule
 from .refmodel.names import is_ancestor
@@ -65,6 +66,10 @@ class Hub:
 
     def violation(self, prop: str, key: str, what: str, witness) -> None:
         self.acc.violation(f"{prop}:{key}", what, witness, self.case)
+        if key.endswith("does-not-terminate"):
+            from .budget import abort_if_hopeless
+
+            abort_if_hopeless()
 
     def register_truth(self, ev, mods, imps) -> None:
         self.truth[id(ev)] = (ev, frozenset(mods), frozenset(imps))
@@ -212,6 +217,8 @@ def _snapshot_rule_config(rule) -> dict:
 # trace recording (fluent calls) -> per-object list on the instance
 # ---------------------------------------------------------------------------------
 
+RULE_BUDGET = 3_000_000  # function starts inside pytestarch per assert_applies (ordinary: 10^2..10^5)
+SCAN_BUDGET = 60_000_000  # per get_evaluable_architecture (ordinary: 10^3..10^6)
 TRACE_ATTR = "_pta_trace"
 POST_HOOKS: dict = {}  # class -> [callable(obj, entry)] run after every top-level fluent call (returned or raised)
 
@@ -546,14 +553,21 @@ def _wrap_rule_assert():
         exc = None
         HUB.depth += 1
         try:
-            orig(self, evaluable)
+            with step_budget(RULE_BUDGET):
+                orig(self, evaluable)
             outcome, msg, et = "pass", None, None
         except AssertionError as e:
             exc, outcome, msg, et = e, "fail", str(e), "AssertionError"
+        except StepBudgetExceeded as e:
+            exc, outcome, msg, et = RuntimeError(f"step budget exhausted: {e}"), "error", str(e), "StepBudgetExceeded"
+            HUB.violation("C01", "evaluation-does-not-terminate", f"Rule.assert_applies exhausted its step budget ({e}); ordinary evaluations need 10^2..10^5 steps", {"cfg": cfg, "truth": [sorted(t) for t in (_truth_for(evaluable, before) or ())]})
         except Exception as e:  # noqa: BLE001
             exc, outcome, msg, et = e, "error", str(e), type(e).__name__
         finally:
             HUB.depth -= 1
+            if HUB.depth == 0:
+                n = steps_of_last_call()
+                HUB.acc.hist("steps_per_rule_evaluation_log10", len(str(n)) - 1 if n > 0 else 0)
         entry[2] = "ok" if exc is None else et
         after = graph_state(evaluable)
         _purity(before, after, "Rule.assert_applies", cfg)
